@@ -298,11 +298,11 @@ PROPS["C10"] = {
 }
 
 PROPS["C12"] = {
-    "module": "MsiProofs.Props.C12",
+    "module": "MsiProofs.Props.C12b",
     "gen": ["limits", "column"],
     "profiles": ["dev"],
-    "theorems": ["MsiProofs.C12.joinInner_spec", "MsiProofs.C12.joinRows_spec", "MsiProofs.C12.prefixed_spec", "MsiProofs.C12.unknown_table", "MsiProofs.C12.unknown_projection"],
-    "level_text": 'Lean theorems: the join loops equal the documented combination for every pair of row lists and every condition: inner = for each left row in order, each right row in order, the concatenation exactly when the condition holds; left = additionally each unmatched left row once, padded with nulls; result columns are table.column with the right side nullable in a left join; unknown tables/columns are errors. Composition over select trees: correspondence + reference evaluator on generated trees (self-joins, nested joins, sub-selects).',
+    "theorems": ["MsiProofs.C12.joinInner_spec", "MsiProofs.C12.joinRows_spec", "MsiProofs.C12.prefixed_spec", "MsiProofs.C12.unknown_table", "MsiProofs.C12.unknown_projection", "MsiProofs.C12.select_is_denotation", "MsiProofs.C12.join_is_denotation", "MsiProofs.C12.select_width", "MsiProofs.C12.select_never_panics"],
+    "level_text": 'WHOLE QUERY TREES: for every tree of joins, projections and filters and every package state, Select::exec equals the comprehension reading of the tree (denoteSelect: inner join = concatenations on which the condition holds, left rows outermost; left join = plus each unmatched left row padded with nulls; filter = rows on which the condition holds; projection = the named columns; errors for unknown tables/columns) - induction over the tree, no depth bound (select_is_denotation); result rows have one cell per result column; no panic outcome on any state and tree (select_never_panics). Lean theorems: the join loops equal the documented combination for every pair of row lists and every condition: inner = for each left row in order, each right row in order, the concatenation exactly when the condition holds; left = additionally each unmatched left row once, padded with nulls; result columns are table.column with the right side nullable in a left join; unknown tables/columns are errors. Composition over select trees: correspondence + reference evaluator on generated trees (self-joins, nested joins, sub-selects).',
     "level_note": "Trusted: Lean kernel; the hand-written package model (MsiModel/Pkg.lean, PkgApi.lean, Pool, Table, PropSet, Summary), tied to the code by byte-exact correspondence: the same request histories run on the real crate and on the model's definitions, compared on every reply including full snapshots and the raw bytes of every saved stream; cfb is modelled as a finite map from names (compared by UTF-16 length and upper-cased text) to byte strings; the 24 table-backed code pages are modelled on ASCII text only (non-ASCII text is exercised under UTF-8; all pages are exercised by the oracle on the real code).",
     "technique": 'Lean 4 proof (join loops = flatMap/filter by induction) + reference evaluator over select trees',
     "rule": 'seeded random sessions: package type, database code page, 1-3 tables with random schemas (types, widths, flags, ranges, categories, enumerations, composite/nullable keys), inserts (valid with controlled invalid mutations), updates (incl. key columns), deletes, selects, stream writes/removes (0..9000 bytes), summary setters/clearers, create/drop table, rejected calls, close/reopen in all three modes at random positions, snapshot after every step, raw bytes after flush. non-trivial = distinct successful mutating requests + decoded files',
